@@ -59,6 +59,13 @@ KNOWN = [
     dict(id='yamlmulti-no-document-separator', family='yamlmulti', excluded='lists with two or more items',
          input='out yamlmulti [1, 2];', observed='"1\\n\\n2\\n\\n" (a single YAML document)',
          clause='read by an independent decoder yields the same data (same nesting, same list order)'),
+    # yaml / yamlmulti / convert yaml: the converter writes one extra "\n" after the document.  When the LAST scalar of the document is a
+    # string that ends in two or more newlines (or consists of newlines only) it is emitted as a keep-chomped block scalar (`|+`), and
+    # the extra line becomes part of the string: `out yaml "a\n\n";` -> "|+\n  a\n\n\n", which decodes to "a\n\n\n" (PyYAML and libyaml agree).
+    # Trees whose last scalar (document order) is such a string get a harmless final item appended (`[tree, 0]`).
+    dict(id='yaml-final-keep-scalar-gains-newline', family='yaml, yamlmulti, convert yaml',
+         excluded='documents whose last scalar is a string ending in "\\n\\n" or made of newlines only',
+         input='out yaml "a\\n\\n";', observed='"|+\\n  a\\n\\n\\n" which decodes to "a\\n\\n\\n"', clause='identical strings'),
 ]
 
 
@@ -378,7 +385,18 @@ def yaml_module():
             import yaml
             _YAML['mod'] = yaml
         except ImportError:
-            _YAML['mod'] = None
+            # the system interpreter's pure-python PyYAML, if this interpreter has none
+            import sys
+            extra = '/usr/lib/python3/dist-packages'
+            sys.path.append(extra)
+            try:
+                import yaml
+                _YAML['mod'] = yaml
+            except Exception:
+                _YAML['mod'] = None
+            finally:
+                if extra in sys.path:
+                    sys.path.remove(extra)
     return _YAML['mod']
 
 
@@ -584,6 +602,56 @@ def verdict_ok_case(fmt, exp, rc, text):
     return check_text(fmt, exp, text)
 
 
+def smaller(v, fmt):
+    """Candidate trees smaller than v (halves, single members, children), all still inside the family of fmt."""
+    top_ok = (lambda x: isinstance(x, Tup)) if fmt == 'toml' else (lambda x: True)
+    if isinstance(v, list):
+        if len(v) > 2:
+            yield v[:len(v) // 2]
+            yield v[len(v) // 2:]
+        if len(v) > 1:
+            for x in v:
+                yield [x]
+        for x in v:
+            if top_ok(x):
+                yield x
+    elif isinstance(v, Tup):
+        it = v.items
+        if len(it) > 2:
+            yield Tup(it[:len(it) // 2])
+            yield Tup(it[len(it) // 2:])
+        if len(it) > 1:
+            for kx in it:
+                yield Tup([kx])
+        for k, x in it:
+            if top_ok(x):
+                yield x
+            elif isinstance(x, list) and fmt == 'toml':
+                for c in smaller(x, 'list-in-toml'):
+                    if isinstance(c, list):
+                        yield Tup([(k, c)])
+
+
+def shrink(fmt, v, budget=30):
+    """Greedy reduction of a failing tree: at most `budget` extra builds, only on the way to a violation report."""
+    while budget > 0:
+        for cand in smaller(v, fmt):
+            if fmt in ('yaml', 'yamlmulti'):
+                cand = yaml_known(cand)
+            if ucg_lit(cand) == ucg_lit(v):
+                continue
+            budget -= 1
+            rc, text, _ = build_one('out %s %s;\n' % (fmt, ucg_lit(cand)), fmt)
+            if verdict_ok_case(fmt, cand, rc, text) is not None:
+                v = cand
+                break
+            if budget <= 0:
+                return v
+        else:
+            return v
+    return v
+
+
 def run_family(name, bound, fmt, values):
     """Build every value (one file each, one invocation), decode, compare; re-run a suspect alone before reporting it."""
     work = tempfile.mkdtemp(prefix='verif_c03_')
@@ -600,6 +668,10 @@ def run_family(name, bound, fmt, values):
         why1 = verdict_ok_case(fmt, v, rc1, text1)
         if why1 is None:
             continue
+        v = shrink(fmt, v)                              # a smaller tree that still fails, for the report
+        src = 'out %s %s;\n' % (fmt, ucg_lit(v))
+        rc1, text1, log1 = build_one(src, fmt)
+        why1 = verdict_ok_case(fmt, v, rc1, text1) or why1
         return dict(name=name, bound=bound, cases=len(values), status='violation',
                     detail='`%s` -> %s' % (src.strip()[:160], why1[:300]),
                     input=dict(source=src, expected='exit 0 and an artifact that decodes to %s' % show(v),
@@ -618,7 +690,24 @@ def need(fmt):
 
 def sizes(tier):
     # (random trees per format, maximal depth)
-    return (400, 5) if tier == 'thorough' else (60, 4)
+    return (250, 5) if tier == 'thorough' else (60, 4)
+
+
+def last_scalar(v):
+    """The last scalar of the document in document order (None for a document that ends in an empty container / a non-string)."""
+    if isinstance(v, list):
+        return last_scalar(v[-1]) if v else None
+    if isinstance(v, Tup):
+        return last_scalar(v.items[-1][1]) if v.items else None
+    return v
+
+
+def yaml_known(v):
+    """KNOWN yaml-final-keep-scalar-gains-newline: keep such a string from being the last scalar of the document."""
+    s = last_scalar(v)
+    if isinstance(s, str) and s and (s.endswith('\n\n') or s.strip('\n') == ''):
+        return [v, 0]
+    return v
 
 
 def family(fmt, tier, seed):
@@ -627,8 +716,14 @@ def family(fmt, tier, seed):
     vals = fixed_values(fmt)
     for i in range(n):
         vals.append(gen_top(rnd, fmt, rnd.randint(1, depth)))
-    return vals, ('%d fixed trees (every special string, key and number once) + %d seeded random trees of depth <= %d (seed %s), each through `out %s`'
-                  % (len(vals) - n, n, depth, seed, fmt))
+    if fmt == 'yaml':
+        vals = [yaml_known(v) for v in vals]
+    return vals, ('%d fixed trees (every special string, key and number of the tables once) + %d seeded random trees of depth <= %d (seed %s), '
+                  'each through `out %s`; KNOWN exclusions: %s' % (len(vals) - n, n, depth, seed, fmt, known_ids(fmt)))
+
+
+def known_ids(fmt):
+    return ', '.join(k['id'] for k in KNOWN if fmt in k['family'].replace(',', ' ').split()) or 'none'
 
 
 def standin_json_roundtrip(tier, seed):
@@ -652,4 +747,190 @@ def standin_toml_roundtrip(tier, seed):
     return run_family('toml_roundtrip', bound, 'toml', vals)
 
 
-STANDINS = [standin_json_roundtrip, standin_yaml_roundtrip, standin_toml_roundtrip]
+def standin_yamlmulti_stream(tier, seed):
+    """yamlmulti: a list is written as a stream with one document per item, anything else as a stream of one document."""
+    miss = need('yamlmulti')
+    if miss:
+        return dict(name='yamlmulti_stream', bound='none', cases=0, status='ok', detail=miss)
+    n, depth = (120, 4) if tier == 'thorough' else (30, 3)
+    rnd = random.Random('yamlmulti-%s' % seed)
+    vals = [[], [1], ['a'], [None], [[1, 2]], [[]], [Tup([('a', 1)])], [Tup([])], 1, 'x', None, True, 1.5, Tup([('a', [1, 2])]), Tup([]),
+            ['---'], ['--- x\n...\n'], 'a\n---\nb', ['a\n---\nb\n'], ['...'], [Tup([('---', '---')])]]
+    for i in range(n):
+        v = gen_value(rnd, 'yaml', rnd.randint(0, depth))
+        if isinstance(v, list):
+            v = v[:1]                # KNOWN yamlmulti-no-document-separator: at most one document
+        vals.append(v)
+    fixed = []
+    for v in vals:                   # KNOWN yaml-final-keep-scalar-gains-newline applies to the (only) document as well
+        if isinstance(v, list) and v:
+            fixed.append([yaml_known(v[0])])
+        elif isinstance(v, list):
+            fixed.append(v)
+        else:
+            w = yaml_known(v)
+            fixed.append(Tup([('doc', w)]) if w is not v else v)
+    bound = ('%d values (non-lists and lists of 0 or 1 item; %d seeded random, depth <= %d, seed %s) through `out yamlmulti`; KNOWN exclusions: %s'
+             % (len(fixed), n, depth, seed, known_ids('yamlmulti')))
+    return run_family('yamlmulti_stream', bound, 'yamlmulti', fixed)
+
+
+# ---------------------------------------------------------------------------------------------------------------------
+# convert expressions: `convert <fmt> <value>` is a string holding the same text
+def standin_convert_expr(tier, seed):
+    miss = need('yaml') or need('toml')
+    if miss:
+        return dict(name='convert_expr', bound='none', cases=0, status='ok', detail=miss)
+    n, depth = (60, 4) if tier == 'thorough' else (12, 3)
+    rnd = random.Random('convert-%s' % seed)
+    triples = []
+    strs = list(SPECIAL_STRINGS)
+    rnd.shuffle(strs)
+    for i in range(n):
+        chunk = strs[(i * 6) % len(strs):(i * 6) % len(strs) + 6]
+        tr = {}
+        for fmt in ('json', 'yaml', 'toml'):
+            v = gen_top(rnd, fmt, rnd.randint(1, depth))
+            if i % 2 == 0:
+                v = Tup([('strings', list(chunk)), ('v', v)])
+            tr[fmt] = yaml_known(v) if fmt == 'yaml' else v
+        triples.append(tr)
+    # (bound to names first: the parser's running time grows steeply with the nesting depth of a literal)
+    sources = ['let v1 = %s;\nlet v2 = %s;\nlet v3 = %s;\nout json {j = convert json v1, y = convert yaml v2, t = convert toml v3};\n'
+               % (ucg_lit(t['json']), ucg_lit(t['yaml']), ucg_lit(t['toml'])) for t in triples]
+    bound = ('%d programs `let v1 = V1; let v2 = V2; let v3 = V3; out json {j = convert json v1, y = convert yaml v2, t = convert toml v3};` with seeded random trees of depth <= %d (seed %s); '
+             'the three strings are read from the JSON artifact and decoded; KNOWN exclusions as in the out families' % (n, depth, seed))
+
+    def judge(t, rc, text):
+        if text is None:
+            return 'the build produced no artifact (exit %s)' % rc
+        try:
+            car = decode_json(text)
+        except Undecodable as e:
+            return 'the JSON artifact carrying the three strings: %s' % e
+        if not isinstance(car, dict) or sorted(car) != ['j', 't', 'y'] or any(not isinstance(x, str) for x in car.values()):
+            return 'the JSON artifact is not {j, t, y} of strings: %r' % (car,)
+        for key, fmt in (('j', 'json'), ('y', 'yaml'), ('t', 'toml')):
+            why = check_text(fmt, t[fmt], car[key])
+            if why:
+                return '`convert %s %s` = %r: %s' % (fmt, ucg_lit(t[fmt])[:200], car[key][:300], why)
+        return None
+    work = tempfile.mkdtemp(prefix='verif_c03_')
+    try:
+        rc, arts, log = build_many(work, sources, 'json')
+    finally:
+        shutil.rmtree(work, ignore_errors=True)
+    for t, src, text in zip(triples, sources, arts):
+        if judge(t, rc, text) is None:
+            continue
+        rc1, text1, log1 = build_one(src, 'json')
+        why = judge(t, rc1, text1)
+        if why is None:
+            continue
+        return dict(name='convert_expr', bound=bound, cases=3 * n, status='violation', detail=why[:400],
+                    input=dict(source=src, expected='j, y, t decode (json / YAML / tomllib) to the three literals of the program',
+                               observed='exit %s; %s%s' % (rc1, why, '' if text1 is not None else '; log: ' + log1[-300:]),
+                               how='write the source to x.ucg, run the real `ucg build x.ucg`, json.loads(x.json), then decode the fields j / y / t'))
+    return dict(name='convert_expr', bound=bound, cases=3 * n, status='ok')
+
+
+# ---------------------------------------------------------------------------------------------------------------------
+# values a format cannot represent: the build must fail
+def inject_null(rnd, v):
+    """Put one NULL somewhere into the tree v (in place); v is a Tup."""
+    conts = []
+
+    def walk(x):
+        if isinstance(x, list):
+            conts.append(x)
+            for y in x:
+                walk(y)
+        elif isinstance(x, Tup):
+            conts.append(x)
+            for _, y in x.items:
+                walk(y)
+    walk(v)
+    c = rnd.choice(conts)
+    if isinstance(c, list):
+        c.insert(rnd.randint(0, len(c)), None)
+    else:
+        used = set(k for k, _ in c.items)
+        c.items.insert(rnd.randint(0, len(c.items)), (gen_key(rnd, used), None))
+    return v
+
+
+CONSTRAINTS = ['constraint c = in 1..3;', 'constraint c = "a" | "b";', 'constraint c = in 1..1024 | 8080;']
+CONSTRAINT_USES = ['c', '{a = c}', '{a = [c]}', '{a = 1, b = {x = c}, z = "s"}', '{a = [{x = 1}, {x = c}]}', '[c]', '[1, c]']
+NONFINITE = ['1.0 / 0.0', '(0.0 - 1.0) / 0.0', '0.0 / 0.0', '1' + '0' * 400 + '.0']
+
+
+def standin_unrepresentable(tier, seed):
+    """NULL in TOML, constraint values in every format and non-finite floats in JSON must be reported as an error (exit status != 0,
+    no artifact); a non-finite float in YAML / TOML (which have .inf / inf / nan) is either an error or decodes to that same float."""
+    rnd = random.Random('unrep-%s' % seed)
+    n_null = 60 if tier == 'thorough' else 12
+    cases = []      # (fmt, source, None = must fail | expected value)
+    for src in ['{a = NULL}', '{a = [NULL]}', '{a = [1, NULL]}', '{a = {b = NULL}}', '{a = [{b = NULL}]}', '{a = 1, b = NULL, c = 2}', '{a = {b = {c = {d = NULL}}}}',
+                '{a = [[NULL]]}', '{"" = NULL}', '{a = [{b = 1}, {b = NULL}]}', '{a = "s", n = NULL}', '{n = NULL, a = "s"}']:
+        cases.append(('toml', 'out toml %s;\n' % src, None))
+    for i in range(n_null):
+        v = inject_null(rnd, gen_top(rnd, 'toml', rnd.randint(1, 4)))
+        cases.append(('toml', 'out toml %s;\n' % ucg_lit(v), None))
+    for fmt in ('json', 'yaml', 'toml', 'yamlmulti'):
+        for ci, con in enumerate(CONSTRAINTS):
+            for use in (CONSTRAINT_USES if (ci == 0 or tier == 'thorough') else CONSTRAINT_USES[:2]):
+                cases.append((fmt, '%s\nout %s %s;\n' % (con, fmt, use), None))
+    for nf in NONFINITE:
+        for shape in ('%s', '{a = %s}', '[1.5, %s]', '{a = {b = [%s]}}'):
+            cases.append(('json', 'out json %s;\n' % (shape % nf), None))
+    inf, nan = float('inf'), float('nan')
+    for fmt in ('yaml', 'toml'):
+        if need(fmt):
+            continue
+        for nf, val in (('1.0 / 0.0', inf), ('(0.0 - 1.0) / 0.0', -inf), ('0.0 / 0.0', nan)):
+            cases.append((fmt, 'out %s {a = %s, l = [%s]};\n' % (fmt, nf, nf), Tup([('a', val), ('l', [val])])))
+    # through a convert expression
+    for fmt, lit in (('toml', '{a = NULL}'), ('toml', '{a = [1, NULL]}'), ('json', '{a = 1.0 / 0.0}'), ('json', '[0.0 / 0.0]')):
+        cases.append(('json', 'let s = convert %s %s;\nout json {s = s};\n' % (fmt, lit), None))
+    for fmt in ('json', 'yaml', 'toml'):
+        cases.append(('json', 'constraint c = in 1..3;\nlet s = convert %s {a = c};\nout json {s = s};\n' % fmt, None))
+    bound = ('%d programs: NULL at fixed and %d seeded random positions of TOML trees; 3 named constraints used as a value in %d positions x {json, yaml, toml, yamlmulti}; '
+             'inf / -inf / NaN in JSON (must fail) and in YAML / TOML (fail or decode to the same float); the same through convert expressions (seed %s)'
+             % (len(cases), n_null, len(CONSTRAINT_USES), seed))
+
+    def judge(fmt, exp, rc, text):
+        if exp is None:         # "reported as an error" = the build's exit status (what a failed build leaves on disk is C14's business)
+            if rc == 0:
+                return 'the format cannot represent the value, yet exit status 0 and artifact %r' % (text if text is None else text[:300],)
+            return None
+        if text is None:
+            return None if rc != 0 else 'exit 0 but no artifact'
+        return check_text(fmt, exp, text)
+    n = 0
+    by_fmt = {}
+    for c in cases:
+        by_fmt.setdefault((c[0], c[2] is None), []).append(c)
+    for (fmt, _), group in by_fmt.items():
+        work = tempfile.mkdtemp(prefix='verif_c03_')
+        try:
+            rc, arts, log = build_many(work, [c[1] for c in group], fmt)
+        finally:
+            shutil.rmtree(work, ignore_errors=True)
+        for (f, src, exp), text in zip(group, arts):
+            n += 1
+            # inside a batch the exit status belongs to the whole invocation: only the artifact is per file
+            # (a must-fail batch that exits 0 is suspect as a whole)
+            if (exp is None and text is None and rc != 0) or (exp is not None and judge(f, exp, 1, text) is None):
+                continue
+            rc1, text1, log1 = build_one(src, f)
+            why = judge(f, exp, rc1, text1)
+            if why is None:
+                continue
+            return dict(name='unrepresentable', bound=bound, cases=len(cases), status='violation',
+                        detail='`%s`: %s' % (src.strip().replace('\n', ' ')[:200], why[:300]),
+                        input=dict(source=src, expected='a build error (exit status 1, no artifact)' if exp is None else 'a build error, or an artifact that decodes to %s' % show(exp),
+                                   observed='exit %s; artifact %r; log: %s' % (rc1, text1, log1[-300:]), how=HOW % (EXT[f], DECODER_NAME[f])))
+    return dict(name='unrepresentable', bound=bound, cases=len(cases), status='ok')
+
+
+STANDINS = [standin_json_roundtrip, standin_yaml_roundtrip, standin_toml_roundtrip, standin_yamlmulti_stream, standin_convert_expr, standin_unrepresentable]
